@@ -268,6 +268,21 @@ func sessionGen(scripts func(g *gen.Rand) []script, side byte) (func(g *gen.Rand
 	return prep, genf
 }
 
+// selfTestSessions runs every valid script through the rig: each must end without an error, otherwise the scripted
+// sessions do not reach the decoders they are meant to reach (rig self-test, an infrastructure matter).
+func selfTestSessions(scripts []script, run func([]byte) error) error {
+	for _, sc := range scripts {
+		var segs []seg
+		for _, s := range sc.segs {
+			segs = append(segs, seg{s.side, s.a.b})
+		}
+		if err := run(frameSession(segs)); err != nil {
+			return fmt.Errorf("rig self-test: valid session %q ends with: %v", sc.name, err)
+		}
+	}
+	return nil
+}
+
 func lei(v uint64, w int) []byte { return encInt(v, w, false) }
 
 func mysqlScripts(g *gen.Rand) []script {
@@ -276,6 +291,7 @@ func mysqlScripts(g *gen.Rand) []script {
 	as := w.protect("plain_as", []byte("secret-as"))
 	sab := w.protect("search_ab", []byte("needle"))
 	mab := w.protect("mask_ab_r", []byte("4111111111111111"))
+	ti := w.protect("typed_i32", []byte("123"))
 	var out []script
 	for _, variant := range []struct {
 		name          string
@@ -284,9 +300,11 @@ func mysqlScripts(g *gen.Rand) []script {
 		deprecateEOF  bool
 		extInfo       bool
 	}{
-		{"plain", capLongPassword | capProtocol41 | capSecureConn | capPluginAuth, 0, capLongPassword | capProtocol41 | capSecureConn | capPluginAuth, 0, false, false},
-		{"depeof", capLongPassword | capProtocol41 | capSecureConn | capPluginAuth | capDeprecateEOF, 0, capLongPassword | capProtocol41 | capSecureConn | capPluginAuth | capDeprecateEOF, 0, true, false},
-		{"maria", capProtocol41 | capSecureConn | capPluginAuth, mariaExtTypeInfo, capProtocol41 | capSecureConn | capPluginAuth, mariaExtTypeInfo, false, true},
+		// the low byte of the client capabilities is what real connectors send (LONG_PASSWORD|LONG_FLAG|CONNECT_WITH_DB|LOCAL_FILES):
+		// the proxy also dispatches the handshake response on its first byte, 0x8d is not a command it acts on
+		{"plain", 0x8d | capProtocol41 | capSecureConn | capPluginAuth, 0, 0xff | capProtocol41 | capSecureConn | capPluginAuth, 0, false, false},
+		{"depeof", 0x8d | capProtocol41 | capSecureConn | capPluginAuth | capDeprecateEOF, 0, 0xff | capProtocol41 | capSecureConn | capPluginAuth | capDeprecateEOF, 0, true, false},
+		{"maria", 0x8c | capProtocol41 | capSecureConn | capPluginAuth, mariaExtTypeInfo, 0xfe | capProtocol41 | capSecureConn | capPluginAuth, mariaExtTypeInfo, false, true},
 	} {
 		seq := byte(0)
 		pk := func(name string, a art) art { seq++; return myPkt(name, seq-1, a) }
@@ -315,7 +333,7 @@ func mysqlScripts(g *gen.Rand) []script {
 		textRes := func() art {
 			h := resultHead("text-resultset")
 			rows := []art{
-				pk("textrow", myTextRow([][]byte{[]byte("1"), as, ab, sab, mab, []byte("123"), []byte("tok"), ab})),
+				pk("textrow", myTextRow([][]byte{[]byte("1"), as, ab, sab, mab, []byte("123"), []byte("tok"), ti})),
 				pk("textrow", myTextRow([][]byte{[]byte("2"), nil, []byte("plain"), nil, []byte("x"), []byte("-5"), nil, []byte("zz")})),
 			}
 			var tailp art
@@ -329,7 +347,7 @@ func mysqlScripts(g *gen.Rand) []script {
 		binRes := func() art {
 			h := resultHead("bin-resultset")
 			rows := []art{
-				pk("binrow", myBinRow([]myBinVal{{fixed: lei(1, 4)}, {str: as}, {str: ab}, {str: sab}, {str: mab}, {fixed: lei(123, 4)}, {str: []byte("tok")}, {str: ab}})),
+				pk("binrow", myBinRow([]myBinVal{{fixed: lei(1, 4)}, {str: as}, {str: ab}, {str: sab}, {str: mab}, {fixed: lei(123, 4)}, {str: []byte("tok")}, {str: ti}})),
 				pk("binrow", myBinRow([]myBinVal{{fixed: lei(2, 4)}, {null: true}, {str: []byte("plain")}, {null: true}, {str: []byte("x")}, {fixed: lei(0xfffffffb, 4)}, {null: true}, {str: []byte("zz")}})),
 			}
 			return catArts("bin-resultset", h, rows[0], rows[1], pk("eof", myEOF()))
@@ -678,11 +696,23 @@ func init() {
 	var rigC, rigD *myProxyRig
 	cs, cg := sessionGen(mysqlScripts, 'C')
 	reg(&target{name: "mysql.proxy.client-stream", group: "mysql", weight: 0.5, prepare: cs, gen: cg,
-		setup: func() error { var err error; rigC, err = newMyProxyRig(); return err },
+		setup: func() error {
+			var err error
+			if rigC, err = newMyProxyRig(); err != nil {
+				return err
+			}
+			return selfTestSessions(mysqlScripts(gen.New(1, "selftest")), rigC.run)
+		},
 		run:   func(in []byte) error { return rigC.run(in) }})
 	ds, dg := sessionGen(mysqlScripts, 'D')
 	reg(&target{name: "mysql.proxy.db-stream", group: "mysql", weight: 0.5, prepare: ds, gen: dg,
-		setup: func() error { var err error; rigD, err = newMyProxyRig(); return err },
+		setup: func() error {
+			var err error
+			if rigD, err = newMyProxyRig(); err != nil {
+				return err
+			}
+			return selfTestSessions(mysqlScripts(gen.New(1, "selftest")), rigD.run)
+		},
 		run:   func(in []byte) error { return rigD.run(in) }})
 	_ = tokenCommon.TokenType_Int32
 }
